@@ -117,7 +117,7 @@ def run_tlc(spec: str, cfg: str, *, workdir: str, dump: bool = False, simulate: 
     out, dump, coverage, violated)."""
     meta = os.path.join(workdir, "meta_" + cfg.replace(".cfg", "").replace("/", "_"))
     os.makedirs(meta, exist_ok=True)
-    cmd = ["java", "-XX:+UseSerialGC", "-Xmx6g", "-Xss64m"] + (jvm or []) + ["-cp", JAR, "tlc2.TLC",
+    cmd = ["java", "-XX:+UseSerialGC", "-Xmx6g", "-Xss64m", f"-Djava.io.tmpdir={workdir}"] + (jvm or []) + ["-cp", JAR, "tlc2.TLC",
            "-metadir", meta, "-noGenerateSpecTE", "-config", os.path.join(SPEC, cfg)]
     w = workers or NCPU
     cmd += ["-workers", str(w)]
